@@ -27,6 +27,8 @@ CHANNEL_KINDS = [
     (False, None, 500),     # 6 PR timed unordered
 ]
 
+RANK = {"connecting": 0, "open": 1, "closing": 2, "closed": 3}
+
 LABELS = ["chat", "", "héllo✓", "数据通道", "a" * 40, "\U0001F600x"]
 
 
@@ -49,10 +51,38 @@ async def _run(case):
     sim = M.Sim([1111, tsn[0], 2222, tsn[1]])
     obs = {"steps": 0}
     snapshots = []
+    dropped_types = []
+    stopped = []
+    closed_ops = []
+    flags = {"reset_overtook_data": False, "reset_hit_reused_id": False}
+    freed = {0: set(), 1: set()}
+    ranks = {0: {}, 1: {}}
     try:
         await sim.start()
         pre_ops = case.get("pre", [])
         chan_meta = {0: [], 1: []}
+
+        def note_reset(dst, data):
+            """RFC 6525: a stream reset request must wait until all DATA up to its last_tsn has arrived;
+            aiortc processes it at once (K9); ids are reused before both directions are reset (K10)."""
+            try:
+                from aiortc import rtcsctptransport as S
+                for ch in S.parse_packet(data)[3]:
+                    if isinstance(ch, S.ReconfigChunk):
+                        for ptype, pdata in ch.params:
+                            if ptype == 13:
+                                prm = S.StreamResetOutgoingParam.parse(pdata)
+                                last = sim.eps[dst]._last_received_tsn
+                                if last is not None and S.uint32_gt(prm.last_tsn, last):
+                                    flags["reset_overtook_data"] = True
+                                for sid in prm.streams:
+                                    cur = sim.eps[dst]._data_channels.get(sid)
+                                    if sid in freed[dst] and cur is not None and cur.readyState != "closing":
+                                        flags["reset_hit_reused_id"] = True
+            except Exception:
+                pass
+
+        sim.pre_deliver = note_reset
 
         async def do(op):
             t = op[0]
@@ -76,6 +106,15 @@ async def _run(case):
             elif t == 2:
                 await sim.deliver(op[1], op[2])
             elif t == 3:
+                q = sim.queues[op[1]]
+                if q:
+                    data = q[op[2] % len(q)]
+                    try:
+                        from aiortc.rtcsctptransport import parse_packet
+                        for ch in parse_packet(data)[3]:
+                            dropped_types.append(type(ch).__name__)
+                    except Exception:
+                        dropped_types.append("unparsable")
                 sim.drop(op[1], op[2])
             elif t == 4:
                 await sim.deliver(op[1], op[2], keep=True)
@@ -83,6 +122,7 @@ async def _run(case):
                 await sim.fire_timer(op[1])
             elif t == 6:
                 if op[2] < len(sim.channels[op[1]]):
+                    closed_ops.append([op[1], op[2]])
                     sim.close_channel(op[1], op[2])
                     await sim.drain()
             elif t == 7:
@@ -93,6 +133,10 @@ async def _run(case):
                         sim.channels[op[1]][op[2]].bufferedAmountLowThreshold = op[3]
                     except ValueError:
                         pass
+            elif t == 10:
+                await sim.guard(op[1], sim.eps[op[1]].stop())
+                await sim.drain()
+                stopped.append(op[1])
             elif t == 9:
                 for _ in range(50):
                     if not sim.in_flight():
@@ -100,16 +144,28 @@ async def _run(case):
                     for dst in (0, 1):
                         while sim.queues[dst]:
                             await sim.deliver(dst, 0)
-            # invariants sampled after every step (C13: bufferedAmount)
+            # invariants sampled after every step (C13: bufferedAmount, forward-only states)
             for ep in (0, 1):
                 tr = sim.eps[ep]
                 for i, ch in enumerate(sim.channels[ep]):
+                    rk = RANK[ch.readyState]
+                    hist = ranks[ep].setdefault(i, [])
+                    if not hist or hist[-1] != rk:
+                        hist.append(rk)
                     queued = sum(len(d) for c, p, d in tr._data_channel_queue if c is ch and p != 50)
                     if ch.readyState != "closed" and ch.bufferedAmount != queued:
                         snapshots.append(("bufferedAmount", ep, i, ch.bufferedAmount, queued))
                     if ch.bufferedAmount < 0:
                         snapshots.append(("negative", ep, i, ch.bufferedAmount, queued))
 
+        # remember which stream ids an endpoint released (K10 detection)
+        for ep_ in (0, 1):
+            orig_closed = sim.eps[ep_]._data_channel_closed
+
+            def closed_hook(stream_id, ep_=ep_, orig_closed=orig_closed):
+                freed[ep_].add(stream_id)
+                return orig_closed(stream_id)
+            sim.eps[ep_]._data_channel_closed = closed_hook
         if case.get("handshake", True):
             await M.handshake(sim)
         for op in case["ops"]:
@@ -156,6 +212,13 @@ async def _run(case):
             "datagrams": [len(sim.sent_log[0]), len(sim.sent_log[1])],
             "retransmissions": [sum(1 for c in sim.eps[e]._sent_queue if c._sent_count > 1) for e in (0, 1)],
             "last_rx": [sim.eps[0]._last_received_tsn, sim.eps[1]._last_received_tsn],
+            "dropped_types": dropped_types,
+            "stopped": stopped,
+            "closed_ops": closed_ops,
+            "reset_overtook_data": flags["reset_overtook_data"],
+            "reset_hit_reused_id": flags["reset_hit_reused_id"],
+            "ranks": [[ranks[ep].get(i, []) for i in range(len(sim.channels[ep]))] for ep in (0, 1)],
+            "reconfig_pending": [bool(sim.eps[e]._reconfig_request) or bool(sim.eps[e]._reconfig_queue) for e in (0, 1)],
         })
     finally:
         await sim.stop()
